@@ -221,6 +221,36 @@ CHECKS.update(
     ),
 )
 
+CHECKS.update(
+    C06=dict(
+        category="other",
+        text="The real Renderable.draw/_animate_/_init_render_ (with the real RenderIterator and Padding) and the real BaseImage.draw/"
+        "_renderer/_display_animated/_format_render (with the real ImageIterator) write into a recording stream; frames are glyph boxes of "
+        "symbolic width. Render width, padding width, terminal size, the initial cursor row (incl. rows that force scrolling), TTY-ness "
+        "and the flags are z3 variables; frame count, loops, render height and vertical padding are enumerated. The stream is interpreted "
+        "by the terminal model with scroll tracking and a symbolic probe cell: last frame exactly where the first was drawn, padding "
+        "blank, everything else untouched, cursor at column 0 of the line below, visible, attributes reset, scrolled exactly as needed; "
+        "size validation raises the documented error iff the documented rule says so, with nothing written.",
+        note="Trusted: terminal model, z3, engine. Frames are abstract glyph boxes (C01 gives the box contract for the real styles); "
+        "frame count <= 3, loops <= 2, height <= 3, vertical padding <= 3 (enumerated); cursor starts at column 0.",
+        design="3 C06",
+        technique=TECH_S + "; terminal-model oracle with scroll tracking and a symbolic probe cell",
+    ),
+    C07=dict(
+        category="fault_enumeration",
+        text="The draw() harness of C06 with a solver-owned fault: a z3 integer selects the stream operation (write / flush / sleep / frame "
+        "render) before draw()'s own clean-up at which Ctrl-C or an exception is raised (the engine forks at every operation), and the "
+        "interrupted write delivers a solver-chosen prefix (cut at every part boundary and inside every control sequence). Both APIs, "
+        "still and animated, block / kitty / iterm2 frame kinds. On return or raise: cursor visible, attributes reset, no control string "
+        "or chunked transmission left open (terminal model), termios vector restored, render data finalized, image size and current "
+        "frame unchanged, animations swallow Ctrl-C, stills propagate it.",
+        note="Trusted: terminal model, termios model, z3, engine. The start of draw()'s own clean-up is located by a fault-free dry run; "
+        "frames are stand-ins containing each style's control-string kinds; 2 frames, heights 1-2 (3 in thorough).",
+        design="3 C07",
+        technique=TECH_S + "; solver-owned fault index and cut point over stream operations",
+    ),
+)
+
 PENDING = {}
 
 
